@@ -753,9 +753,14 @@ package leader
 //@   on call handleHeartbeatFailure as c set heartbeat_failed = failed && c.err != nil
 //@   on call handleHeartbeatFailure as c assert C07.demotes_only_on_real_failure: failed && classified && (isPerm || cfail >= 3)
 //@   loop 0 invariant C03.fail_count: 0 <= $v && $v <= 2 && $v == cfail
-//@   loop 0 invariant C03.no_pending_demotion: (failed ==> classified) && !(classified && isPerm) && !hbfCalled
+//@   loop 0 invariant C03.no_pending_demotion: (failed ==> classified) && !(classified && isPerm) && !hbfCalled && !pendingCancel
 //@   loop 0 invariant C12.count_is_streak: e.healthFailureCount == streak && 0 <= streak && streak < MaxHealth(e.cfg)
 //@   on return assert C03.demotion_on_exit: classified && (isPerm || cfail >= 3) ==> hbfCalled
+//@   ghost pendingCancel Bool = false
+//@   on recv ctx.Done set pendingCancel = true
+//@   on call handleRunCancelled set pendingCancel = false
+//@   on return assert C03+C02.refreshes_end_only_with_the_term: !pendingCancel
+//@   on call handleRunCancelled as c assert C03.run_cancelled_names_this_run: c.ctx == ctx
 //@   on return assert C03.failure_is_classified: failed ==> classified
 
 //@ func (e *kvElection) handleHeartbeatFailure(err)
@@ -769,6 +774,23 @@ package leader
 //@   on load kvElection.onDemote as l set demoteSet = l.value != nil
 //@   ensures C03.demotes: calls(becomeFollower) == 1
 //@   ensures C03.runs_demote_callback: cleared && demoteSet ==> calls(onDemote) == 1
+//@   ensures C08.demote_iff_claim_cleared: calls(onDemote) == ((cleared && demoteSet) ? 1 : 0)
+
+//@ func (e *kvElection) handleRunCancelled(ctx)
+//@   tags C03 C02 C08 C07 C20
+//@   requires C09.nil_ctx: ctx != nil
+//@   requires C07.run_really_cancelled: cancelled(ctx)
+//@   ghost demote_cause Bool = false
+//@   ghost cleared Bool = false
+//@   ghost demoteSet Bool = false
+//@   ghost sameRun Bool = false
+//@   ghost run Int = ctx
+//@   on load kvElection.ctx as l set sameRun = l.value == run
+//@   on call becomeFollower set demote_cause = cancelled(run) && sameRun
+//@   on ret becomeFollower as r set cleared = r.result
+//@   on load kvElection.onDemote as l set demoteSet = l.value != nil
+//@   ensures C03+C02.cancelled_run_ends_its_term: sameRun ==> calls(becomeFollower) == 1
+//@   ensures C07.later_run_left_alone: !sameRun ==> calls(becomeFollower) == 0 && calls(onDemote) == 0
 //@   ensures C08.demote_iff_claim_cleared: calls(onDemote) == ((cleared && demoteSet) ? 1 : 0)
 
 //@ func (e *kvElection) handleHealthCheckFailure()
